@@ -208,6 +208,12 @@ func (env *Env) evalCall(c *ast.CallExpr) *Val {
 	if id, ok := c.Fun.(*ast.Ident); ok {
 		if b, ok := info.Uses[id].(*types.Builtin); ok {
 			switch b.Name() {
+			case "len":
+				v := env.eval(c.Args[0])
+				if v.C != nil && v.C.Kind() == constant.String {
+					return intVal(int64(len(constant.StringVal(v.C))))
+				}
+				env.fail(c, "len of non-constant")
 			case "max", "min":
 				best := env.eval(c.Args[0])
 				for _, a := range c.Args[1:] {
@@ -411,4 +417,79 @@ func singleDef(info *types.Info, body ast.Node, o types.Object) ast.Expr {
 		return rhs
 	}
 	return nil
+}
+
+// WalkPath follows the flat CFG from the entry, deciding every branch with the evaluator under env.
+// The function must be loop-free on the followed path (a node visited twice is an error). It
+// returns the visited node ids in order and the exit node. Assignments on the path are applied
+// to env (simple 1:1 assignments to locals and fields), so later guards see them.
+func (f *Flat) WalkPath(env *Env) (visited []int, exit int, err error) {
+	defer func() {
+		if r := recover(); r != nil {
+			if ee, ok := r.(evalErr); ok {
+				err = ee
+				return
+			}
+			panic(r)
+		}
+	}()
+	seen := map[int]bool{}
+	cur := f.Entry
+	for {
+		if seen[cur] {
+			return visited, -1, fmt.Errorf("loop on evaluated path at %s", f.P.pos(f.Nodes[cur].Ast))
+		}
+		seen[cur] = true
+		n := f.Nodes[cur]
+		if n.Ast != nil {
+			visited = append(visited, cur)
+		}
+		if n.Exit {
+			return visited, cur, nil
+		}
+		if n.Ast != nil && !n.IsCond {
+			switch s := n.Ast.(type) {
+			case *ast.AssignStmt, *ast.DeclStmt:
+				func() {
+					defer func() {
+						if r := recover(); r != nil {
+							if _, ok := r.(evalErr); !ok {
+								panic(r)
+							}
+							// value not evaluable: forget the targets
+							for _, o := range assignedObjs(f.Pkg.TypesInfo, n.Ast) {
+								delete(env.Vars, o)
+							}
+						}
+					}()
+					env.execBlock([]ast.Stmt{s.(ast.Stmt)})
+				}()
+			}
+		}
+		if len(n.Succs) == 1 {
+			cur = n.Succs[0].To
+			continue
+		}
+		if !n.IsCond {
+			return visited, -1, fmt.Errorf("multi-way branch without condition at %s", f.P.pos(n.Ast))
+		}
+		v := env.eval(n.Ast.(ast.Expr))
+		if v == nil || v.C == nil || v.C.Kind() != constant.Bool {
+			return visited, -1, fmt.Errorf("condition at %s is not decidable", f.P.pos(n.Ast))
+		}
+		want := 2
+		if constant.BoolVal(v.C) {
+			want = 1
+		}
+		next := -1
+		for _, e := range n.Succs {
+			if e.Label == want {
+				next = e.To
+			}
+		}
+		if next < 0 {
+			return visited, -1, fmt.Errorf("no %d-edge at %s", want, f.P.pos(n.Ast))
+		}
+		cur = next
+	}
 }
